@@ -7,6 +7,22 @@ import subprocess
 ROOT = os.path.dirname(os.path.dirname(os.path.abspath(__file__)))
 
 CHECKS = {
+    "C01": dict(
+        category="model_checking",
+        text="TLC checks on the specification that the documented default printer followed by the documented default reader "
+             "(spec/RefPrint.tla, spec/RefRead.tla) is the identity on a bounded universe of values of all 11 kinds, and emits "
+             "every value with its reference text. The harness sends each of these, a probe set and seeded random values through "
+             "all 4 print x 4 parse entry points of the implementation and compares with ==, floats by the accuracy rule of the "
+             "property; the implementation must also read the reference printer's text as the value. Every printed text is then "
+             "read by the TLA+ reference reader under TLC (trace validation): the independent reader of the documented grammar "
+             "must obtain the original value.",
+        design_ref="DESIGN.md section 6 (C01), sections 3.3, 3.4",
+        note="Trusted: TLC; the reference reader/printer (cross-checked against each other by TLC and against the implementation on "
+             "the unchanged tree); core's {:e} float formatting and str::parse::<f64> as float oracles. Bounded: TLC universe nests to "
+             "depth 2; random values nest to depth 5 with strings up to 40 characters; the share of random texts judged by TLC is "
+             "limited by a byte budget (evidence: traces_validated_against_impl), the rest only by the implementation-side comparison.",
+        technique="TLA+ reference reader/printer model-checked with TLC; TLC-generated values replayed through 16 entry-point pairs; printed texts validated by TLC against the reference reader",
+    ),
     "C07": dict(
         category="fault_enumeration",
         text="The sink machine of spec/Sink.tla (write_all discipline against a sink that may accept any prefix, return 0, fail or "
